@@ -1,5 +1,5 @@
 (* C09 proofs: input forms and save/load cycles (Model/IO.v). *)
-From Coq Require Import NArith List Bool Lia.
+From Coq Require Import NArith List Bool Arith Lia.
 Require Import CCP.Lib.PyStr CCP.Lib.Res CCP.gen.TabC09 CCP.Model.IO.
 Import ListNotations.
 
@@ -7,3 +7,392 @@ Lemma tables_as_modelled :
   linesplit_rgx_src = [92; 114; 42; 92; 110]%N /\ save_newline_src = [LF] /\ openargs_newline_none = true
   /\ is_linebreak LF = true /\ is_linebreak CR = true.
 Proof. repeat split; reflexivity. Qed.
+
+(* ------------------------------------------------------------------ small facts *)
+Lemma is_cr_CR : is_cr CR = true. Proof. reflexivity. Qed.
+Lemma is_lf_LF : is_lf LF = true. Proof. reflexivity. Qed.
+Lemma is_cr_LF : is_cr LF = false. Proof. reflexivity. Qed.
+Lemma is_lf_CR : is_lf CR = false. Proof. reflexivity. Qed.
+Lemma lb_LF : is_linebreak LF = true. Proof. reflexivity. Qed.
+Lemma lb_CR : is_linebreak CR = true. Proof. reflexivity. Qed.
+
+Lemma is_cr_true c : is_cr c = true -> c = CR.
+Proof. unfold is_cr. intros H. apply N.eqb_eq in H. exact H. Qed.
+Lemma is_lf_true c : is_lf c = true -> c = LF.
+Proof. unfold is_lf. intros H. apply N.eqb_eq in H. exact H. Qed.
+
+Lemma strong_list_ind (P : str -> Prop) :
+  (forall s, (forall t, length t < length s -> P t) -> P s) -> forall s, P s.
+Proof.
+  intros H s. remember (length s) as n eqn:En. revert s En.
+  induction n as [n IH] using lt_wf_ind. intros s En. apply H. intros t Ht. apply (IH (length t)); [lia | reflexivity].
+Qed.
+
+(* ------------------------------------------------------------------ drop_last_empty *)
+Lemma dle_cons a X : X <> [] -> drop_last_empty (a :: X) = a :: drop_last_empty X.
+Proof. destruct X as [|b X']; [congruence | reflexivity]. Qed.
+
+Lemma dle_app_empty l : drop_last_empty (l ++ [[]]) = l.
+Proof.
+  induction l as [|a l IH]; [reflexivity|].
+  change ((a :: l) ++ [[]]) with (a :: (l ++ [[]])). rewrite dle_cons.
+  - rewrite IH. reflexivity.
+  - destruct l; discriminate.
+Qed.
+
+(* ------------------------------------------------------------------ split_nl *)
+Lemma split_nl_nonempty s : split_nl s <> [].
+Proof.
+  destruct s as [|c r]; simpl; [discriminate|].
+  destruct (is_lf c); [discriminate|]. destruct (split_nl r); discriminate.
+Qed.
+
+Lemma split_nl_cons_other c r : is_lf c = false ->
+  exists f fs, split_nl r = f :: fs /\ split_nl (c :: r) = (c :: f) :: fs.
+Proof.
+  intros H. destruct (split_nl r) as [|f fs] eqn:E; [exfalso; eapply split_nl_nonempty; eauto|].
+  exists f, fs. split; [reflexivity|]. simpl. rewrite H, E. reflexivity.
+Qed.
+
+(* a line without LF followed by LF *)
+Lemma split_nl_line l rest : forallb (fun c => negb (is_lf c)) l = true ->
+  split_nl (l ++ LF :: rest) = l :: split_nl rest.
+Proof.
+  induction l as [|c l IH]; intros H; simpl.
+  - reflexivity.
+  - simpl in H. apply andb_true_iff in H. destruct H as [Hc Hl]. apply negb_true_iff in Hc.
+    rewrite Hc. rewrite (IH Hl). reflexivity.
+Qed.
+Lemma split_nl_last l : forallb (fun c => negb (is_lf c)) l = true -> split_nl l = [l].
+Proof.
+  induction l as [|c l IH]; intros H; simpl; [reflexivity|].
+  simpl in H. apply andb_true_iff in H. destruct H as [Hc Hl]. apply negb_true_iff in Hc.
+  rewrite Hc, (IH Hl). reflexivity.
+Qed.
+
+Definition no_lf (l : str) : bool := forallb (fun c => negb (is_lf c)) l.
+Definition no_cr (l : str) : bool := forallb (fun c => negb (is_cr c)) l.
+
+Lemma no_crlf_split l : no_crlf l = true -> no_cr l = true /\ no_lf l = true.
+Proof.
+  unfold no_crlf, no_cr, no_lf. induction l as [|c l IH]; simpl; intros H; [auto|].
+  apply andb_true_iff in H. destruct H as [Hc Hl]. destruct (IH Hl) as [A B].
+  rewrite negb_orb in Hc. apply andb_true_iff in Hc. destruct Hc as [C1 C2]. rewrite C1, C2, A, B. auto.
+Qed.
+Lemma no_crlf_join l : no_cr l = true -> no_lf l = true -> no_crlf l = true.
+Proof.
+  unfold no_crlf, no_cr, no_lf. induction l as [|c l IH]; simpl; intros A B; [reflexivity|].
+  apply andb_true_iff in A. destruct A as [A1 A2]. apply andb_true_iff in B. destruct B as [B1 B2].
+  rewrite negb_orb, A1, B1. simpl. auto.
+Qed.
+
+Lemma split_nl_terminate ls tail : Forall (fun l => no_lf l = true) ls ->
+  split_nl (terminate ls ++ tail) = ls ++ split_nl tail.
+Proof.
+  unfold terminate. induction ls as [|l ls IH]; intros H; simpl; [reflexivity|].
+  apply Forall_cons_iff in H; destruct H as [Hl Hls]. rewrite <- !app_assoc. simpl.
+  rewrite split_nl_line by exact Hl. rewrite IH by exact Hls. reflexivity.
+Qed.
+
+(* every field of split_nl inherits a per-character property of the text, and has no LF *)
+Lemma split_nl_forall (P : char -> bool) s : forallb P s = true ->
+  Forall (fun f => forallb P f = true) (split_nl s).
+Proof.
+  induction s as [|c r IH]; intros H; simpl.
+  - constructor; [reflexivity | constructor].
+  - simpl in H. apply andb_true_iff in H. destruct H as [Hc Hr]. specialize (IH Hr).
+    destruct (is_lf c).
+    + constructor; [reflexivity | exact IH].
+    + destruct (split_nl r) as [|f fs]; [constructor; [simpl; rewrite Hc; reflexivity | constructor]|].
+      apply Forall_cons_iff in IH; destruct IH as [Hf Hfs]. constructor; [simpl; rewrite Hc, Hf; reflexivity | exact Hfs].
+Qed.
+Lemma split_nl_no_lf s : Forall (fun f => no_lf f = true) (split_nl s).
+Proof.
+  unfold no_lf. induction s as [|c r IH]; simpl.
+  - constructor; [reflexivity | constructor].
+  - destruct (is_lf c) eqn:Ec.
+    + constructor; [reflexivity | exact IH].
+    + destruct (split_nl r) as [|f fs]; [constructor; [simpl; rewrite Ec; reflexivity | constructor]|].
+      apply Forall_cons_iff in IH; destruct IH as [Hf Hfs]. constructor; [simpl; rewrite Ec, Hf; reflexivity | exact Hfs].
+Qed.
+
+(* ------------------------------------------------------------------ strip_cr_butlast *)
+Lemma lstrip_by_id (p : char -> bool) s : forallb (fun c => negb (p c)) s = true -> lstrip_by p s = s.
+Proof.
+  destruct s as [|c r]; simpl; intros H; [reflexivity|].
+  apply andb_true_iff in H. destruct H as [Hc _]. apply negb_true_iff in Hc. rewrite Hc. reflexivity.
+Qed.
+Lemma forallb_rev {A} (p : A -> bool) l : forallb p (rev l) = forallb p l.
+Proof.
+  induction l as [|a l IH]; simpl; [reflexivity|].
+  rewrite forallb_app, IH. simpl. rewrite andb_true_r. apply andb_comm.
+Qed.
+Lemma rstrip_by_id (p : char -> bool) s : forallb (fun c => negb (p c)) s = true -> rstrip_by p s = s.
+Proof.
+  intros H. unfold rstrip_by. rewrite lstrip_by_id; [apply rev_involutive|]. rewrite forallb_rev. exact H.
+Qed.
+Lemma strip_cr_id l : Forall (fun f => no_cr f = true) l -> strip_cr_butlast l = l.
+Proof.
+  induction l as [|x r IH]; intros H; [reflexivity|].
+  apply Forall_cons_iff in H; destruct H as [Hx Hr]. destruct r as [|y r']; [reflexivity|].
+  change (strip_cr_butlast (x :: y :: r')) with (rstrip_by is_cr x :: strip_cr_butlast (y :: r')).
+  rewrite (IH Hr). rewrite rstrip_by_id by exact Hx. reflexivity.
+Qed.
+
+(* ------------------------------------------------------------------ univ_nl *)
+Lemma univ_nl_no_cr s : no_cr (univ_nl s) = true.
+Proof.
+  unfold no_cr. induction s as [s IH] using strong_list_ind.
+  destruct s as [|c r]; [reflexivity|]. simpl.
+  destruct (is_cr c) eqn:Ec.
+  - simpl. destruct r as [|c2 r2]; [reflexivity|].
+    destruct (is_lf c2); apply IH; simpl; lia.
+  - simpl. rewrite Ec. simpl. apply IH. simpl; lia.
+Qed.
+Lemma univ_nl_id s : no_cr s = true -> univ_nl s = s.
+Proof.
+  unfold no_cr. induction s as [|c r IH]; simpl; intros H; [reflexivity|].
+  apply andb_true_iff in H. destruct H as [Hc Hr]. apply negb_true_iff in Hc. rewrite Hc, (IH Hr). reflexivity.
+Qed.
+
+(* LF / CRLF terminated lines *)
+Lemma univ_nl_line l e rest : no_cr l = true -> is_lf_or_crlf e = true ->
+  univ_nl (l ++ e ++ rest) = l ++ LF :: univ_nl rest.
+Proof.
+  unfold no_cr. intros Hl He. induction l as [|c l IH]; simpl.
+  - unfold is_lf_or_crlf in He. apply orb_true_iff in He. destruct He as [He|He]; apply str_eqb_eq in He; subst e; reflexivity.
+  - simpl in Hl. apply andb_true_iff in Hl. destruct Hl as [Hc Hl]. apply negb_true_iff in Hc.
+    rewrite Hc. rewrite (IH Hl). reflexivity.
+Qed.
+
+Definition wf_pair (p : str * str) : Prop := no_crlf (fst p) = true /\ is_lf_or_crlf (snd p) = true.
+
+Lemma univ_nl_pairs pairs tail : Forall wf_pair pairs ->
+  univ_nl (text_of pairs ++ tail) = terminate (lines_of pairs) ++ univ_nl tail.
+Proof.
+  unfold text_of, lines_of, terminate. induction pairs as [|[l e] ps IH]; intros H; simpl; [reflexivity|].
+  apply Forall_cons_iff in H; destruct H as [[Hl He] Hps]. simpl in Hl, He.
+  rewrite <- !app_assoc. rewrite univ_nl_line; [|apply no_crlf_split in Hl; tauto | exact He].
+  simpl. rewrite (IH Hps). reflexivity.
+Qed.
+
+(* ------------------------------------------------------------------ load / save *)
+Lemma load_is_spec s : load s = spec_lines s.
+Proof.
+  unfold load, spec_lines, split_crlf. apply strip_cr_id.
+  apply (split_nl_forall (fun c => negb (is_cr c))). apply univ_nl_no_cr.
+Qed.
+
+Lemma load_lines_clean s : Forall (fun l => no_crlf l = true) (load s).
+Proof.
+  rewrite load_is_spec. unfold spec_lines.
+  pose proof (split_nl_forall (fun c => negb (is_cr c)) (univ_nl s) (univ_nl_no_cr s)) as A.
+  pose proof (split_nl_no_lf (univ_nl s)) as B.
+  revert A B. generalize (split_nl (univ_nl s)). intros l A B.
+  induction l as [|x r IH]; [constructor|].
+  inversion A; subst. inversion B; subst. constructor; [apply no_crlf_join; assumption | apply IH; assumption].
+Qed.
+
+Lemma file_lines pairs : Forall wf_pair pairs -> load (text_of pairs) = lines_of pairs ++ [[]].
+Proof.
+  intros H. rewrite load_is_spec. unfold spec_lines.
+  rewrite <- (app_nil_r (text_of pairs)). rewrite univ_nl_pairs by exact H.
+  rewrite split_nl_terminate; [reflexivity|].
+  unfold lines_of. induction H as [|[l e] ps [Hl _] _ IH]; simpl; [constructor|].
+  constructor; [apply no_crlf_split in Hl; tauto | exact IH].
+Qed.
+Lemma file_lines_nofinal pairs l : Forall wf_pair pairs -> no_crlf l = true ->
+  load (text_of pairs ++ l) = lines_of pairs ++ [l].
+Proof.
+  intros H Hl. rewrite load_is_spec. unfold spec_lines. apply no_crlf_split in Hl. destruct Hl as [Hc Hf].
+  rewrite univ_nl_pairs by exact H. rewrite (univ_nl_id l Hc).
+  rewrite split_nl_terminate.
+  - rewrite split_nl_last by exact Hf. reflexivity.
+  - unfold lines_of. induction H as [|[l' e] ps [Hl' _] _ IH]; simpl; [constructor|].
+    constructor; [apply no_crlf_split in Hl'; tauto | exact IH].
+Qed.
+
+Lemma dle_clean ls : Forall (fun l => no_crlf l = true) ls -> Forall (fun l => no_crlf l = true) (drop_last_empty ls).
+Proof.
+  induction ls as [|a r IH]; intros H; [constructor|].
+  apply Forall_cons_iff in H; destruct H as [Ha Hr]. destruct r as [|b r'].
+  - simpl. destruct a; [constructor | constructor; [exact Ha | constructor]].
+  - rewrite dle_cons by discriminate. constructor; [exact Ha | apply IH; exact Hr].
+Qed.
+
+Lemma terminate_no_cr ls : Forall (fun l => no_crlf l = true) ls -> no_cr (terminate ls) = true.
+Proof.
+  unfold terminate, no_cr. induction ls as [|l r IH]; intros H; simpl; [reflexivity|].
+  apply Forall_cons_iff in H; destruct H as [Hl Hr]. rewrite !forallb_app. apply no_crlf_split in Hl. destruct Hl as [Hc _].
+  unfold no_cr in Hc. rewrite Hc. simpl. apply IH. exact Hr.
+Qed.
+
+(* re-loading what save wrote: the lines written, plus the empty text after the final newline *)
+Lemma load_save ls : Forall (fun l => no_crlf l = true) ls -> load (save ls) = drop_last_empty ls ++ [[]].
+Proof.
+  intros H. pose proof (dle_clean ls H) as H'. rewrite load_is_spec. unfold spec_lines, save.
+  rewrite univ_nl_id by (apply terminate_no_cr; exact H').
+  rewrite <- (app_nil_r (terminate (drop_last_empty ls))). rewrite split_nl_terminate; [reflexivity|].
+  revert H'. generalize (drop_last_empty ls). intros l Hl. induction Hl as [|x r Hx _ IH]; constructor; [apply no_crlf_split in Hx; tauto | exact IH].
+Qed.
+
+Lemma save_load_save ls : Forall (fun l => no_crlf l = true) ls -> save (load (save ls)) = save ls.
+Proof. intros H. rewrite load_save by exact H. unfold save at 1. rewrite dle_app_empty. reflexivity. Qed.
+
+Lemma cycles_fixed n b : cycle b = b -> cycles n b = b.
+Proof. intros H. induction n as [|n IH]; simpl; [reflexivity|]. rewrite H. exact IH. Qed.
+
+(* ---- cycle_stable: from the first save on nothing changes, for EVERY file content *)
+Lemma cycle_stable content :
+  let b1 := save (load content) in
+  (forall n, cycles n b1 = b1) /\ (forall n, load (cycles n b1) = load b1) /\ load (save (load b1)) = load b1.
+Proof.
+  intros b1. assert (F : cycle b1 = b1).
+  { unfold cycle, b1. apply save_load_save. apply load_lines_clean. }
+  split; [|split].
+  - intros n. apply cycles_fixed. exact F.
+  - intros n. rewrite cycles_fixed by exact F. reflexivity.
+  - fold (cycle b1). rewrite F. reflexivity.
+Qed.
+
+(* the same starting from a list / tuple / string input whose lines hold no CR / LF *)
+Lemma cycle_stable_list ls : Forall (fun l => no_crlf l = true) ls ->
+  let b1 := save ls in
+  (forall n, cycles n b1 = b1) /\ (forall n, load (cycles n b1) = drop_last_empty ls ++ [[]]).
+Proof.
+  intros H b1. assert (F : cycle b1 = b1) by (unfold cycle, b1; apply save_load_save; exact H).
+  split.
+  - intros n. apply cycles_fixed. exact F.
+  - intros n. rewrite cycles_fixed by exact F. unfold b1. apply load_save. exact H.
+Qed.
+
+(* a file never grows or shrinks: the byte (code point) count is constant from the first save on *)
+Lemma cycle_length content n : length (cycles n (save (load content))) = length (save (load content)).
+Proof. destruct (cycle_stable content) as [A _]. rewrite A. reflexivity. Qed.
+
+(* ------------------------------------------------------------------ str.splitlines *)
+Lemma splitlines_line l e rest : no_break l = true -> is_lf_or_crlf e = true ->
+  splitlines_py (l ++ e ++ rest) = l :: splitlines_py rest.
+Proof.
+  unfold no_break. intros Hl He. induction l as [|c l IH].
+  - unfold is_lf_or_crlf in He. apply orb_true_iff in He. destruct He as [He|He]; apply str_eqb_eq in He; subst e.
+    + simpl app. cbn [splitlines_py]. rewrite lb_LF. rewrite is_cr_LF. simpl andb.
+      destruct rest; reflexivity.
+    + simpl app. cbn [splitlines_py]. rewrite lb_CR. rewrite is_cr_CR, is_lf_LF. reflexivity.
+  - simpl in Hl. apply andb_true_iff in Hl. destruct Hl as [Hc Hl]. apply negb_true_iff in Hc.
+    simpl app. cbn [splitlines_py]. rewrite Hc. rewrite (IH Hl). reflexivity.
+Qed.
+Lemma splitlines_last l : no_break l = true -> l <> [] -> splitlines_py l = [l].
+Proof.
+  unfold no_break. induction l as [|c l IH]; intros H Hne; [congruence|].
+  simpl in H. apply andb_true_iff in H. destruct H as [Hc Hl]. apply negb_true_iff in Hc.
+  cbn [splitlines_py]. rewrite Hc. destruct l as [|c2 l2]; [reflexivity|].
+  rewrite IH; [reflexivity | exact Hl | discriminate].
+Qed.
+
+Definition wf_bpair (p : str * str) : Prop := no_break (fst p) = true /\ is_lf_or_crlf (snd p) = true.
+
+Lemma splitlines_pairs pairs tail : Forall wf_bpair pairs ->
+  splitlines_py (text_of pairs ++ tail) = lines_of pairs ++ splitlines_py tail.
+Proof.
+  unfold text_of, lines_of. induction pairs as [|[l e] ps IH]; intros H; simpl; [reflexivity|].
+  apply Forall_cons_iff in H; destruct H as [[Hl He] Hps]. simpl in Hl, He.
+  rewrite <- !app_assoc. rewrite splitlines_line by assumption. rewrite (IH Hps). reflexivity.
+Qed.
+
+(* a break-free line has in particular no CR / LF *)
+Lemma no_break_no_crlf l : no_break l = true -> no_crlf l = true.
+Proof.
+  unfold no_break, no_crlf. induction l as [|c l IH]; simpl; intros H; [reflexivity|].
+  apply andb_true_iff in H. destruct H as [Hc Hl]. rewrite (IH Hl), andb_true_r.
+  apply negb_true_iff in Hc. apply negb_true_iff. apply orb_false_iff. split.
+  - destruct (is_cr c) eqn:E; [|reflexivity]. apply is_cr_true in E. subst c. rewrite lb_CR in Hc. discriminate.
+  - destruct (is_lf c) eqn:E; [|reflexivity]. apply is_lf_true in E. subst c. rewrite lb_LF in Hc. discriminate.
+Qed.
+
+(* ---- forms_agree *)
+Lemma forms_agree fs pairs : Forall wf_bpair pairs -> 2 <= length pairs ->
+  read_input fs (InList (lines_of pairs)) = Ok (lines_of pairs)
+  /\ read_input fs (InTuple (lines_of pairs)) = Ok (lines_of pairs)
+  /\ read_input fs (InStr (text_of pairs)) = Ok (lines_of pairs).
+Proof.
+  intros H Hn. split; [reflexivity | split; [reflexivity|]].
+  unfold read_input. rewrite <- (app_nil_r (text_of pairs)). rewrite splitlines_pairs by exact H.
+  simpl splitlines_py. rewrite app_nil_r.
+  unfold lines_of. destruct pairs as [|p1 [|p2 ps]]; simpl in Hn; try lia. reflexivity.
+Qed.
+(* the final line end may be absent (when the last line is not empty) *)
+Lemma forms_agree_nofinal fs pairs l : Forall wf_bpair pairs -> no_break l = true -> l <> [] -> 1 <= length pairs ->
+  read_input fs (InList (lines_of pairs ++ [l])) = Ok (lines_of pairs ++ [l])
+  /\ read_input fs (InTuple (lines_of pairs ++ [l])) = Ok (lines_of pairs ++ [l])
+  /\ read_input fs (InStr (text_of pairs ++ l)) = Ok (lines_of pairs ++ [l]).
+Proof.
+  intros H Hl Hne Hn. split; [reflexivity | split; [reflexivity|]].
+  unfold read_input. rewrite splitlines_pairs by exact H. rewrite splitlines_last by assumption.
+  unfold lines_of. destruct pairs as [|p1 ps]; simpl in Hn; try lia.
+  simpl. destruct (map fst ps ++ [l]) eqn:E; [destruct (map fst ps); discriminate | reflexivity].
+Qed.
+
+(* ---- file_is_split *)
+Lemma file_is_split fs p content : (exists x, splitlines_py p = [x]) -> fs p = Some content ->
+  read_input fs (InStr p) = Ok (spec_lines content).
+Proof.
+  intros [x Hx] Hfs. unfold read_input. rewrite Hx, Hfs. rewrite load_is_spec. reflexivity.
+Qed.
+Lemma wf_bpair_pair p : wf_bpair p -> wf_pair p.
+Proof. intros [A B]. split; [apply no_break_no_crlf; exact A | exact B]. Qed.
+Lemma file_form fs p pairs : (exists x, splitlines_py p = [x]) -> fs p = Some (text_of pairs) -> Forall wf_pair pairs ->
+  read_input fs (InStr p) = Ok (lines_of pairs ++ [[]]).
+Proof.
+  intros [x Hx] Hfs H. unfold read_input. rewrite Hx, Hfs. rewrite file_lines by exact H. reflexivity.
+Qed.
+Lemma file_form_nofinal fs p pairs l : (exists x, splitlines_py p = [x]) -> fs p = Some (text_of pairs ++ l) ->
+  Forall wf_pair pairs -> no_crlf l = true ->
+  read_input fs (InStr p) = Ok (lines_of pairs ++ [l]).
+Proof.
+  intros [x Hx] Hfs H Hl. unfold read_input. rewrite Hx, Hfs. rewrite file_lines_nofinal by assumption. reflexivity.
+Qed.
+
+(* ---- string form = file form without the element after the final line end, unless F11 *)
+Lemma splitlines_is_file_split s : no_exotic s = true -> splitlines_py s = drop_last_empty (spec_lines s).
+Proof.
+  unfold spec_lines, no_exotic. induction s as [s IH] using strong_list_ind. intros H.
+  destruct s as [|c r]; [reflexivity|].
+  simpl in H. apply andb_true_iff in H. destruct H as [Hc Hr].
+  destruct (is_cr c) eqn:Ecr.
+  - (* CR *) apply is_cr_true in Ecr. subst c.
+    cbn [splitlines_py univ_nl]. rewrite lb_CR, is_cr_CR.
+    destruct r as [|c2 r2].
+    + reflexivity.
+    + simpl andb. destruct (is_lf c2) eqn:El.
+      * simpl in Hr. apply andb_true_iff in Hr. destruct Hr as [_ Hr2].
+        cbn [split_nl]. rewrite is_lf_LF. rewrite dle_cons by apply split_nl_nonempty.
+        rewrite (IH r2); [reflexivity | simpl; lia | exact Hr2].
+      * cbn [split_nl]. rewrite is_lf_LF. rewrite dle_cons by apply split_nl_nonempty.
+        rewrite (IH (c2 :: r2)); [reflexivity | simpl; lia | exact Hr].
+  - destruct (is_lf c) eqn:Elf.
+    + (* LF *) apply is_lf_true in Elf. subst c.
+      cbn [splitlines_py univ_nl]. rewrite lb_LF, is_cr_LF. simpl andb.
+      cbn [split_nl]. rewrite is_lf_LF. rewrite dle_cons by apply split_nl_nonempty.
+      rewrite <- (IH r); [destruct r; reflexivity | simpl; lia | exact Hr].
+    + (* ordinary character *)
+      rewrite Ecr, Elf in Hc. rewrite !orb_false_r in Hc. apply negb_true_iff in Hc.
+      cbn [splitlines_py univ_nl]. rewrite Hc, Ecr.
+      rewrite (IH r); [|simpl; lia | exact Hr].
+      destruct (split_nl_cons_other c (univ_nl r) Elf) as [f [fs [E1 E2]]]. rewrite E2, E1.
+      destruct fs as [|g fs'].
+      * simpl. destruct f; reflexivity.
+      * rewrite !dle_cons by discriminate. reflexivity.
+Qed.
+
+Lemma str_form_is_file_form fs s : no_exotic s = true -> 2 <= length (splitlines_py s) ->
+  read_input fs (InStr s) = Ok (drop_last_empty (spec_lines s)).
+Proof.
+  intros H Hn. unfold read_input. rewrite <- (splitlines_is_file_split s H).
+  destruct (splitlines_py s) as [|a [|b r]]; simpl in Hn; try lia. reflexivity.
+Qed.
+
+(* F11: with one of the extra separators the string form and the file form differ *)
+Lemma splitlines_extra_refuted :
+  exists s, 2 <= length (splitlines_py s) /\ splitlines_py s <> drop_last_empty (spec_lines s).
+Proof. exists [97; 11; 98; 10; 99]%N. split; [vm_compute; lia | vm_compute; discriminate]. Qed.
